@@ -248,9 +248,10 @@ func init() {
 	for _, n := range []string{"runtime.SetFinalizer", "runtime.KeepAlive", "runtime.GC", "runtime.Gosched",
 		"internal/godebug.(*Setting).IncNonDefault", "internal/race.Acquire", "internal/race.Release",
 		"internal/race.ReleaseMerge", "internal/race.Disable", "internal/race.Enable", "internal/race.Read", "internal/race.Write",
-		"internal/race.ReadRange", "internal/race.WriteRange", "runtime.SetFinalizer", "os.Setenv", "runtime.AddCleanup"} {
+		"internal/race.ReadRange", "internal/race.WriteRange", "runtime.SetFinalizer", "runtime.AddCleanup"} {
 		reg(n, nop)
 	}
+	reg("os.Setenv", toStub("Setenv"))
 	reg("runtime.GOMAXPROCS", func(fr *frame, args []value) value { return 1 })
 	reg("runtime.NumCPU", func(fr *frame, args []value) value { return 1 })
 	reg("internal/abi.NoEscape", func(fr *frame, args []value) value { return args[0] })
